@@ -264,8 +264,6 @@ def work(item):
                 os.makedirs(d)
                 files, index, info = gendir.gen_dir(rng, nbases=2)
                 gendir.write_dir(d, files, index)
-                from basis_set_exchange import curate
-                curate.create_metadata_file(os.path.join(d, 'METADATA.json'), d)
                 fmt = rng.choice(['nwchem', 'gaussian94', 'json'])
                 a1, a2 = os.path.join(tmp, 'cli%d.zip' % i), os.path.join(tmp, 'api%d.zip' % i)
                 line = ['-d', d, 'create-bundle', fmt, 'bib', a1]
